@@ -1,6 +1,6 @@
 #!/bin/sh
 # usage: tools/seedtest.sh <seed dir> <property ids...>   — applies the seed to a scratch copy of /repo and runs the checks on it
-seed=$1; shift
+seed=$(realpath "$1"); shift
 d=$(mktemp -d /tmp/seedrun-XXXX)
 cp -r /repo/src /repo/Cargo.toml /repo/Cargo.lock "$d"/ 2>/dev/null
 (cd "$d" && git init -q . && git add -A && git commit -qm base >/dev/null && git apply "$seed/patch.diff") || { echo "patch does not apply"; rm -rf "$d"; exit 3; }
